@@ -120,7 +120,7 @@ def run(tier):
     need = ["dec_backref_ok", "len_scan_only", "trailing", "ser_shorter", "ser_witness", "run", "gen_ok", "gen_err", "gen_witness",
             "multibyte_path", "corpus_compressed"]
     missing = [k for k in need if st[k] == 0]
-    if missing:
+    if missing and not chk.violations:   # a vacuity guard must never mask a recorded violation
         raise ToolError("X05 run is vacuous for: %s (%s)" % (missing, st))
     multi = [v for v in enc_by_tree.values() if v[0] > 1]
     chk.extra["observed"] = st
